@@ -69,11 +69,17 @@ def run_pair(case):
     for name in DENSE:
         f = getattr(D, name)
         try:
-            d1 = float(f(xa.copy(), ya.copy()))
-            d2 = float(f(ya.copy(), xa.copy()))
+            # the SAME array objects are used for both orders, as a caller comparing d(x,y) with d(y,x) would: a function
+            # that alters its arguments makes the second value wrong
+            d1 = float(f(xa, ya))
+            d2 = float(f(ya, xa))
         except Exception as e:
             v.append(viol("exception:%s:%s" % (name, type(e).__name__), "%s(%s,%s) raised %r" % (name, x, y, e)))
             continue
+        finally:
+            if xa.tolist() != [float(a) for a in x] or ya.tolist() != [float(b) for b in y]:
+                v.append(viol("argument-modified:%s" % name, "%s changed its arguments: x=%s is now %s, y=%s is now %s" % (name, x, xa.tolist(), y, ya.tolist())))
+                xa, ya = np.array(x, dtype=np.float64), np.array(y, dtype=np.float64)
         if not math.isfinite(d1) or not math.isfinite(d2):
             v.append(viol("not-finite:%s%s" % (name, ":proportional" if prop else ""), "%s(%s, %s) = %r" % (name, x, y, d1)))
             continue
@@ -143,7 +149,10 @@ def run_triple(case):
     v = []
     for name in ("hellinger", "total_variation", "kantorovich1d"):
         f = getattr(D, name)
-        dxy, dyz, dxz = float(f(x.copy(), y.copy())), float(f(y.copy(), z.copy())), float(f(x.copy(), z.copy()))
+        dxy, dyz, dxz = float(f(x, y)), float(f(y, z)), float(f(x, z))       # the same array objects throughout
+        if any(a.tolist() != [float(t) for t in case[k]] for a, k in ((x, "x"), (y, "y"), (z, "z"))):
+            v.append(viol("argument-modified:%s" % name, "%s changed one of its arguments (%s %s %s)" % (name, case["x"], case["y"], case["z"])))
+            x, y, z = (np.array(case[k], dtype=np.float64) for k in ("x", "y", "z"))
         if not all(map(math.isfinite, (dxy, dyz, dxz))):
             continue  # reported by the pair sub-check
         if dxz > dxy + dyz + 1e-7:
